@@ -144,6 +144,43 @@ class Checker:
         if getattr(S, "__constants__", None):
             self.n_const_inst += 1
             self._constants(S, label, case, o, forms)
+        self._nested_constants(label, case, o, forms)
+
+    def _nested_constants(self, label, case, o, forms):
+        """constants of NESTED schema values (however those values were built, e.g. by the library's own value parsers
+        via construct()) are present in the output with their constant value"""
+        from pydantic import BaseModel
+
+        def walk(obj, path):
+            for name, fld in type(obj).__fields__.items():
+                v = obj.__dict__.get(name)
+                key = fld.alias
+                items = [(path + (key,), v)] if isinstance(v, BaseModel) else ([(path + (key, i), x) for i, x in enumerate(v) if isinstance(x, BaseModel)] if isinstance(v, (list, tuple)) else [])
+                for pth, sub in items:
+                    consts = getattr(type(sub), "__constants__", None) or {}
+                    if consts:
+                        yield pth, type(sub).__name__, consts
+                    yield from walk(sub, pth)
+
+        found = list(walk(o, ()))
+        if not found or "json" not in forms:
+            return
+        try:
+            view = json.loads(forms["json"])
+        except Exception:
+            return
+        for pth, cname, consts in found:
+            cur = view
+            try:
+                for step in pth:
+                    cur = cur[step]
+            except Exception:
+                cur = None
+            for k, v in consts.items():
+                ok = isinstance(cur, dict) and k in cur and canon(cur[k]) == canon(v)
+                self.rec.check(ok, f"c12:nested-const-missing-in-output:{cname}:{k}",
+                               f"constant {k!r}={v!r} of the nested {cname} value at {'/'.join(map(str, pth))} of a {label} instance must be in the JSON output, got {sl.short(repr(cur.get(k, '<absent>') if isinstance(cur, dict) else cur), 80)}",
+                               case=case, fns=FNS_CONST + ["schema/decorators.py:add_const_fields"])  # fmt: skip
 
     def _dump(self, o, form):
         return o.json() if form == "json" else o.yaml() if form == "yaml" else bytes(o)
